@@ -156,6 +156,10 @@ def _bin_lines(binname, args, timeout=3000):
     summ = [l for l in lines if l.get("type") == "summary"]
     if not summ:
         raise vlib.ToolError("%s produced no summary\n%s" % (binname, err[-2000:]))
+    if summ[0].get("cases_skipped", 0) and not any(p["type"] in ("contract", "hang", "panic") for p in summ[0]["problems"]):
+        # the binary gives up after a dozen abandoned cases; without any reported problem that is a harness fault
+        raise vlib.ToolError("%s skipped %d cases after abandoning %d without reporting a problem" %
+                             (binname, summ[0]["cases_skipped"], summ[0].get("cases_abandoned", 0)))
     details = {}
     for l in lines:
         if l.get("type") in ("contract", "panic", "mismatch", "hang"):
